@@ -237,6 +237,8 @@ def run_stream_convert(req):
             conv.opf2csv("data.dat", "other.csv")
             conv.opf2json("data.dat")
             loaded = dict(txt=loader.load_txt("data.txt"), csv=loader.load_csv("other.csv"), json=loader.load_json("data.json"))
+            obs_txt = [[float(v) for v in r] for r in loaded["txt"]] if loaded["txt"] is not None else None
+            accepted = []
             lab0 = [l - 1 for l in labs]
             seq = set(lab0) == set(range(max(lab0) + 1))
             for k, arr in loaded.items():
@@ -254,6 +256,7 @@ def run_stream_convert(req):
                 try:
                     try:
                         X, Y = parser.parse_loader(arr)
+                        accepted.append(k)
                     except IndexError as ex:
                         bad.append("pipeline-does-not-raise")
                         continue
@@ -294,7 +297,7 @@ def run_stream_convert(req):
                     bad.append("pipeline-does-not-raise")
         finally:
             os.chdir(cwd)
-    return dict(obs={}, violated=bad)
+    return dict(obs=dict(txt=obs_txt, accepted=sorted(accepted)), violated=bad)
 
 
 HANDLERS["stream_split"] = run_stream_split
